@@ -299,7 +299,16 @@ func downloadBundleDescriptor(store storage.Store, repo, key string, settings Se
 	}
 
 	if settings.withMinimalBundle {
-		// in this configuration, don't fetch the bundle descriptor: we are only interested about the key
+		// in this configuration, don't fetch the bundle descriptor: we are only interested about the key.
+		// Still, only committed bundles count: the index files left behind by an interrupted upload are not a bundle.
+		has, err := store.Has(context.Background(), model.GetArchivePathToBundle(repo, apc.BundleID))
+		if err != nil {
+			return model.BundleDescriptor{}, err
+		}
+		if !has {
+			return model.BundleDescriptor{}, storagestatus.ErrNotExists
+		}
+
 		return model.BundleDescriptor{
 			ID: apc.BundleID,
 		}, nil
